@@ -17,7 +17,7 @@ theorem lininv_new (k s m : Nat) : LinInv (Db.new k s m) := by
 
 /-! ### a refused insertion changes nothing -/
 
-theorem insert_error {db : Db} {log : List Entry} (hq : QRep db log) (hnl : db.loaded = false)
+theorem insert_error {db : Db} {log : List Entry} (hq : QRep db log)
     {sig : Sig} {ident : String} {lineage : Lineage} {db' : Db} {e : Err}
     (h : db.insert sig ident lineage = (db', .error e)) : db' = db := by
   rw [insert_unfold] at h
@@ -44,16 +44,7 @@ theorem insert_error {db : Db} {log : List Entry} (hq : QRep db log) (hnl : db.l
       rw [hq.identToIdx]; exact get?_identIdx_none hfresh
     unfold Db.getIdentIndex at h
     simp only [hgi] at h
-    -- the lineage step keeps `loaded`
-    have hld : ∀ (d : Db) (i : Nat), (withLineage d i lineage).loaded = d.loaded := by
-      intro d i
-      unfold withLineage
-      by_cases hlin : lineage ≠ []
-      · rw [if_pos hlin]
-        unfold Db.getLineageId
-        cases get? d.lineageToLid lineage <;> rfl
-      · rw [if_neg hlin]
-    simp only [hld, hnl, Bool.false_eq_true, if_false, Prod.mk.injEq] at h
+    simp only [Prod.mk.injEq] at h
     exact absurd h.2 (by simp)
 
 /-! ### `get_lineage_assignments` -/
@@ -335,6 +326,6 @@ theorem downsample_lininv {db db' : Db} (hl : LinInv db) {S : Nat} (h : db.downs
   · simp [h1, h2] at h
   simp only [h1, h2, if_false, Except.ok.injEq] at h
   subst h
-  exact ⟨hl.to_lid, hl.lid_lt, hl.lid_nodup⟩
+  exact ⟨hl.to_lid, hl.lid_lt, hl.lid_nodup, hl.lid_used⟩
 
 end Sm.Lca
